@@ -46,6 +46,7 @@ type walkResult struct {
 	Panic    string     `json:"panic,omitempty"`
 	Unknown  []string   `json:"unknown_edges,omitempty"` // edges with no id in the tables
 	Twice    int        `json:"visited_twice"`
+	Pruned   [][]int    `json:"pruned,omitempty"` // Pruned[k]: ids visited when the callback refuses types with id%3==k
 }
 
 // inspectTree runs the real ast.Inspect on root and relates what it visits to what is reflect-reachable.
@@ -58,8 +59,9 @@ func inspectTree(root ast.Node, res *walkResult) {
 			ptrIdx[r.Ptr] = i
 		}
 	}
-	matched := make([]int, len(rs))
-	func() {
+	// one run of the real ast.Inspect; keep decides, per node type id, whether the callback returns true
+	run := func(keep func(ty int) bool, visited *[]int, countAll bool) []int {
+		matched := make([]int, len(rs))
 		defer func() {
 			if r := recover(); r != nil {
 				res.Panic = fmt.Sprint(r)
@@ -70,37 +72,56 @@ func inspectTree(root ast.Node, res *walkResult) {
 				return false
 			}
 			if isTypedNil(n) {
-				res.TypedNil++
+				if countAll {
+					res.TypedNil++
+				}
 				return false
-			}
-			if i, ok := ptrIdx[n]; ok {
-				matched[i]++
-				res.Visited = append(res.Visited, i)
-				return true
 			}
 			v := reflect.ValueOf(n)
 			if v.Kind() == reflect.Ptr {
 				v = v.Elem()
 			}
+			k := keep(typeID[v.Type().Name()])
+			if i, ok := ptrIdx[n]; ok {
+				matched[i]++
+				*visited = append(*visited, i)
+				return k
+			}
 			for i, r := range rs {
 				if r.Kind == "val" && matched[i] == 0 && r.Type == v.Type().Name() && reflect.DeepEqual(r.Val, v.Interface()) {
 					matched[i]++
-					res.Visited = append(res.Visited, i)
-					return true
+					*visited = append(*visited, i)
+					return k
 				}
 			}
 			// a second visit of an already matched value node?
 			for i, r := range rs {
 				if r.Kind == "val" && r.Type == v.Type().Name() && reflect.DeepEqual(r.Val, v.Interface()) {
 					matched[i]++
-					res.Visited = append(res.Visited, i)
-					return true
+					*visited = append(*visited, i)
+					return k
 				}
 			}
-			res.Foreign = append(res.Foreign, v.Type().Name())
-			return true
+			if countAll {
+				res.Foreign = append(res.Foreign, v.Type().Name())
+			}
+			return k
 		})
-	}()
+		return matched
+	}
+	matched := run(func(int) bool { return true }, &res.Visited, true)
+	if matched == nil {
+		matched = make([]int, len(rs))
+	}
+	// pruning runs: the callback returns false on every node whose type id is congruent to k modulo 3
+	// (one run per k); what is visited then is compared with the model's inspect under the same predicate
+	res.Pruned = make([][]int, 3)
+	for k := 0; k < 3; k++ {
+		k := k
+		vis := []int{}
+		run(func(ty int) bool { return ty%3 != k }, &vis, false)
+		res.Pruned[k] = vis
+	}
 	for i, r := range rs {
 		ty, ok := typeID[r.Type]
 		if !ok {
